@@ -156,6 +156,16 @@ ChecksumDefsAgree ==
 \* parsing yields equal header fields and payload
 ParseRecovers == phase = "parsed" => Norm(dec) = Norm(Expand(fill))
 
+\* the two directions of the structured option layouts (Multipath TCP) agree:
+\* the fields read from an option's octets are the fields those octets are
+\* written from (so comparing fields loses nothing against comparing octets)
+StructuredOptionsOK ==
+  phase = "parsed" =>
+    \A i \in 1..Len(dec) : dec[i].p = "tcp" =>
+      \A j \in 1..Len(dec[i].opts) :
+        LET o == dec[i].opts[j]
+        IN (o.k = 30 /\ Len(MpFields(o.d)) > 0) => MpEnc(MpFields(o.d)) = o.d
+
 \* serialising the parse result reproduces the same bytes; so does
 \* serialising the completed stack (derived fields are recomputed, not trusted).
 \* (Pack is deterministic except for the placement of DHCP pad options.)
